@@ -200,81 +200,102 @@ structure Resolved where
   modulus : Modulus      -- `int` or `poly` only
   deriving DecidableEq, Repr
 
+/-- order -> (char, ext_deg) ≙ sectypes.py:577-582 -/
+def stepOrder (a : Args) : Except Err (Option Nat × Option Nat) :=
+  match a.order with
+  | some x =>
+    match factorPrimePower x with
+    | none => .error .valueError
+    | some (p, d) => do
+      let c := orD a.char p
+      check (c == p)
+      let e := orD a.extDeg d
+      check (e == d)
+      pure (some c, some e)
+  | none => pure (a.char, a.extDeg)
+
+/-- str, int > char -> polynomial ≙ sectypes.py:585-590 -/
+def stepConv (char : Option Nat) (md : Modulus) : Except Err (Option Nat × Modulus) :=
+  match md with
+  | .str cs => do
+    let c := orD char 2
+    gfpxType c
+    pure (some c, Modulus.poly c (ofCoeffs c cs))
+  | .int n =>
+    match char with
+    | some (c + 1) =>
+      if n > c + 1 then do
+        gfpxType (c + 1)
+        pure (char, Modulus.poly (c + 1) (ofInt (c + 1) n))
+      else pure (char, Modulus.int n)
+    | _ => pure (char, Modulus.int n)
+  | m => pure (char, m)
+
+/-- polynomial modulus ≙ sectypes.py:591-595 -/
+def stepPoly (char extDeg minOrder : Option Nat) (p : Nat) (f : Poly) : Except Err Resolved := do
+  let c := orD char p
+  check (c == p)
+  if f.length ≤ 1 then
+    -- constant modulus (degree 0 or -1): `ext_deg or degree` never equals a positive request;
+    -- otherwise `order = char**degree` is 1 (or 0.5), so a larger `min_order` trips the final
+    -- assert, and else GF() refuses the modulus (not irreducible)
+    match extDeg with
+    | some (_ + 1) => .error .assertionError
+    | _ => if orD minOrder 0 > f.length then .error .assertionError else .error .valueError
+  else do
+    let e := orD extDeg (f.length - 1)
+    check (e == f.length - 1)
+    pure ⟨c, e, .poly p f⟩
+
+/-- int modulus ≙ sectypes.py:596-600 -/
+def stepInt (char extDeg : Option Nat) (n : Nat) : Except Err Resolved := do
+  let c := orD char n
+  check (c == n)
+  let e := orD extDeg 1
+  check (e == 1)
+  pure ⟨c, e, .int n⟩
+
+/-- `modulus = char if ext_deg == 1 else find_irreducible(char, ext_deg)` ≙ sectypes.py:619-622 -/
+def pickModulus (o : Oracles) (c e : Nat) : Except Err Modulus :=
+  if e == 1 then pure (Modulus.int c) else do
+    gfpxType c
+    pure (Modulus.poly c (o.findIrr c e))
+
+/-- no modulus ≙ sectypes.py:601-622; also returns the new `min_order` -/
+def stepNone (o : Oracles) (char extDeg minOrder : Option Nat) : Except Err (Resolved × Option Nat) :=
+  match minOrder with
+  | none => do
+    let c := orD char 2
+    let e := orD extDeg 1
+    let modulus ← pickModulus o c e
+    pure (⟨c, e, modulus⟩, some (c ^ e))
+  | some mo => do
+    let (c, e) ← match char with
+      | none =>
+        let e := orD extDeg 1
+        pure (leastPrimeGe (ceilRoot mo e), e)
+      | some c =>
+        match extDeg with
+        | none => do
+          let e ← o.ceilLog c mo
+          pure (c, e)
+        | some e => pure (c, e)
+    let modulus ← pickModulus o c e
+    pure (⟨c, e, modulus⟩, some mo)
+
 /-- ≙ sectypes.py:577-622 -/
 def resolveArgs (o : Oracles) (a : Args) : Except Err (Resolved × Option Nat) := do
-  -- order -> (char, ext_deg)                                          sectypes.py:577-582
-  let (char, extDeg) ← match a.order with
-    | some x =>
-      match factorPrimePower x with
-      | none => .error .valueError
-      | some (p, d) => do
-        let c := orD a.char p
-        check (c == p)
-        let e := orD a.extDeg d
-        check (e == d)
-        pure (some c, some e)
-    | none => pure (a.char, a.extDeg)
-  -- str / int > char  -> polynomial                                   sectypes.py:585-590
-  let (char, modulus) ← match a.modulus with
-    | .str cs => do
-      let c := orD char 2
-      gfpxType c
-      pure (some c, Modulus.poly c (ofCoeffs c cs))
-    | .int n =>
-      match char with
-      | some (c + 1) =>
-        if n > c + 1 then do
-          gfpxType (c + 1)
-          pure (char, Modulus.poly (c + 1) (ofInt (c + 1) n))
-        else pure (char, Modulus.int n)
-      | _ => pure (char, Modulus.int n)
-    | m => pure (char, m)
+  let (char, extDeg) ← stepOrder a
+  let (char, modulus) ← stepConv char a.modulus
   match modulus with
-  | .poly p f => do                                                  -- sectypes.py:591-595
-    let c := orD char p
-    check (c == p)
-    if f.length ≤ 1 then
-      -- constant modulus (degree 0 or -1): `ext_deg or degree` never equals a positive request;
-      -- otherwise `order = char**degree` is 1 (or 0.5), so a larger `min_order` trips the final
-      -- assert, and else GF() refuses the modulus (not irreducible)
-      match extDeg with
-      | some (_ + 1) => .error .assertionError
-      | _ => if orD a.minOrder 0 > f.length then .error .assertionError else .error .valueError
-    else do
-      let e := orD extDeg (f.length - 1)
-      check (e == f.length - 1)
-      pure (⟨c, e, .poly p f⟩, a.minOrder)
-  | .int n => do                                                     -- sectypes.py:596-600
-    let c := orD char n
-    check (c == n)
-    let e := orD extDeg 1
-    check (e == 1)
-    pure (⟨c, e, .int n⟩, a.minOrder)
+  | .poly p f => do
+    let r ← stepPoly char extDeg a.minOrder p f
+    pure (r, a.minOrder)
+  | .int n => do
+    let r ← stepInt char extDeg n
+    pure (r, a.minOrder)
   | .str _ => .error .valueError   -- unreachable
-  | .none =>                                                         -- sectypes.py:601-622
-    match a.minOrder with
-    | none => do
-      let c := orD char 2
-      let e := orD extDeg 1
-      let modulus ← if e == 1 then pure (Modulus.int c) else do
-        gfpxType c
-        pure (Modulus.poly c (o.findIrr c e))
-      pure (⟨c, e, modulus⟩, some (c ^ e))
-    | some mo => do
-      let (c, e) ← match char with
-        | none =>
-          let e := orD extDeg 1
-          pure (leastPrimeGe (ceilRoot mo e), e)
-        | some c =>
-          match extDeg with
-          | none => do
-            let e ← o.ceilLog c mo
-            pure (c, e)
-          | some e => pure (c, e)
-      let modulus ← if e == 1 then pure (Modulus.int c) else do
-        gfpxType c
-        pure (Modulus.poly c (o.findIrr c e))
-      pure (⟨c, e, modulus⟩, some mo)
+  | .none => stepNone o char extDeg a.minOrder
 
 /-- ≙ SecFld up to `field = finfields.GF(modulus)`: sectypes.py:577-626.  Returns the field and the
 final values of the locals `order`, `min_order`. -/
